@@ -68,6 +68,19 @@ def unordered(ctx):
         for c in base:
             s = [x for x in ast.walk(c.args[1]) if isinstance(x, ast.Call) and call_name(x) == "sorted"][0]
             ctx.check(kwarg(s, "reverse") is None and kwarg(s, "key") is None, c, "plain ascending sort of the items")
+            # what is sorted: the items themselves, or pairs (something computed from the key, THE VALUE) - every key and
+            # every value must still reach the digest
+            src = s.args[0] if s.args else None
+            items_p = f.args.args[1].arg if len(f.args.args) > 1 else None
+            if isinstance(src, (ast.GeneratorExp, ast.ListComp)) and len(src.generators) == 1:
+                gen = src.generators[0]
+                tg = gen.target
+                okp = isinstance(tg, ast.Tuple) and len(tg.elts) == 2 and all(isinstance(e, ast.Name) for e in tg.elts) and dotted(gen.iter) == items_p and not gen.ifs \
+                    and isinstance(src.elt, ast.Tuple) and len(src.elt.elts) == 2 and dotted(src.elt.elts[1]) == tg.elts[1].id and tg.elts[0].id in names_in(src.elt.elts[0])
+                ctx.check(bool(okp), c, "the fallback sorts (digest of the key, value) pairs of every item",
+                          "the fallback feeds `%s` to the pickler: a key or a value of the dict no longer reaches the digest, so dicts that differ there share one digest" % unparse(src, 80))
+            elif src is not None:
+                ctx.check(dotted(src) == items_p, c, "the items themselves are sorted", "what is sorted is `%s`, not the dict's items" % unparse(src, 60))
         hs = [h for t in nodes_of_type(f, ast.Try) for h in t.handlers]
         ctx.check(any(handler_catches(h, ["TypeError"]) for h in hs), f, "unorderable keys fall back to sorting by the digest of the key")
     # dispatch table entries
